@@ -41,6 +41,10 @@ def run(ck):
     ck.run_rule(n5_single_producer)
     ck.run_rule(n6_cli)
     ck.run_rule(n7_no_global_state, cg)
+    # a search runs to its depth limit unless a Stop is sent: the control thread cancels only on Stop or when every sender is gone, and the
+    # search thread keeps one sender alive until it has finished (C04's X5) - otherwise a caller dropping its sender cuts the search short
+    from .c04 import x5_x6_control_and_sink
+    ck.run_rule(x5_x6_control_and_sink)
 
 
 def reach(ck, cg):
